@@ -45,6 +45,17 @@ def one(rec, hub, seed, tier, i):
             s = dsm.make_stock(fd, cfg, "StockDrivenDSM", solver="manual" if which == 2 else "lapack", lm=lm,
                                stock=dsm.driver_values(rng, cfg["shape"], str(rng.choice(["stock", "growing"]))))
             s.compute()
+        if hasattr(s, "lifetime_model") and rng.random() < 0.4:
+            # same objects, other parameters: the identities must hold for the recomputed stock as well
+            lm = s.lifetime_model
+            kw = {}
+            for pn, v in cfg["truth"].items():
+                f = rng.uniform(1.05, 1.6)
+                kw[pn] = np.array(v) * (f if pn in ("mean", "weibull_scale") else 1.0)
+            lm.set_prms(**kw)
+            if rng.random() < 0.5:
+                lm.sf
+            s.compute()
 
 
 def run(rec, hub, tier, seed, shard, nshards, budget):
